@@ -246,6 +246,112 @@ class Fn:
         raise Untranslatable("statement kind " + str(k))
 
 
+class NbFn(Fn):
+    """`QIODeviceCopierPrivate::nextBlock`: calls on the two devices are oracle inputs of the
+    generated function (`src->read` -> i.readResult, `src->pos()` -> i.pos, `src->atEnd()` ->
+    i.atEnd, `dest->write(_, n) == -1` -> i.writeFails n, recorded as the action `write n`),
+    signals and the re-arming timer are actions."""
+
+    def dev_call(self, n):
+        n = strip(n)
+        if n.get("kind") != "CXXMemberCallExpr":
+            return None
+        callee = strip(n["inner"][0])
+        if callee.get("kind") != "MemberExpr":
+            return None
+        base = strip(callee["inner"][0])
+        if base.get("kind") == "MemberExpr" and base.get("name") in ("src", "dest") and strip(base["inner"][0]).get("kind") == "CXXThisExpr":
+            return base["name"], callee["name"], n["inner"][1:]
+        return None
+
+    def expr(self, n, env):
+        dc = self.dev_call(n)
+        if dc:
+            dev, meth, args = dc
+            if (dev, meth) == ("src", "pos"):
+                return "i.pos"
+            if (dev, meth) == ("src", "read"):
+                return "i.readResult"
+            raise Untranslatable("device call %s->%s in an expression" % (dev, meth))
+        m = strip(n)
+        if m.get("kind") == "MemberExpr" and strip(m["inner"][0]).get("kind") == "CXXThisExpr" and m["name"] in ("bufferSize", "rangeTo", "rangeFrom"):
+            return "i." + m["name"]
+        return Fn.expr(self, n, env)
+
+    def prop(self, n, env):
+        m = strip(n)
+        dc = self.dev_call(m)
+        if dc and dc[:2] == ("src", "atEnd"):
+            return "(i.atEnd = true)"
+        if m.get("kind") == "MemberExpr" and strip(m["inner"][0]).get("kind") == "CXXThisExpr" and m["name"] == "stopped":
+            return "(i.stopped = true)"
+        return Fn.prop(self, n, env)
+
+    def stmts(self, ss, env, ret, depth=0):
+        ind = "  " * (depth + 2)
+        if not ss:
+            return ret(env)
+        s, rest = ss[0], ss[1:]
+        s0 = strip(s)
+        k = s0.get("kind")
+        acts = env.get("$acts", "([] : List Act)")
+        def push(act):
+            env2 = dict(env); env2["$acts"] = "acts"
+            return "let acts : List Act := %s ++ [%s]\n%s%s" % (acts, act, ind, self.stmts(rest, env2, ret, depth))
+        if k == "DeclStmt":
+            v = s0["inner"][0]
+            init = [c for c in v.get("inner", []) if c.get("kind") not in ("FullComment",)]
+            if init and strip(init[0]).get("kind") not in ("CXXConstructExpr",):
+                val = self.expr(init[0], env)
+                env2 = dict(env); env2[v["name"]] = ident(v["name"])
+                return "let %s : Int := %s\n%s%s" % (ident(v["name"]), val, ind, self.stmts(rest, env2, ret, depth))
+            self.locals_skipped = getattr(self, "locals_skipped", set()) | {v["name"]}
+            return self.stmts(rest, env, ret, depth)
+        if k == "CXXMemberCallExpr":
+            callee = strip(s0["inner"][0])
+            base = strip(callee["inner"][0]) if callee.get("inner") else {}
+            if base.get("kind") == "DeclRefExpr" and base.get("referencedDecl", {}).get("name") in getattr(self, "locals_skipped", set()):
+                return self.stmts(rest, env, ret, depth)        # data.resize(bufferSize): storage only
+            if callee.get("kind") == "MemberExpr" and base.get("kind") == "MemberExpr" and base.get("name") == "q":
+                if callee["name"] in ("error", "finished"):
+                    return push(".%s" % ("error" if callee["name"] == "error" else "finished"))
+            raise Untranslatable("call statement " + str(callee.get("name")))
+        if k == "CallExpr":
+            fn = strip(s0["inner"][0])
+            if fn.get("kind") == "DeclRefExpr" and fn.get("referencedDecl", {}).get("name") == "singleShot":
+                return push(".requeue")
+            raise Untranslatable("call to a free function")
+        if k == "IfStmt":
+            cond = strip(s0["inner"][0])
+            # if (dest->write(data, n) == -1) ...
+            if cond.get("kind") == "BinaryOperator" and cond["opcode"] == "==":
+                dc = self.dev_call(cond["inner"][0])
+                if dc and dc[:2] == ("dest", "write"):
+                    nexpr = self.expr(dc[2][-1], env)
+                    env2 = dict(env); env2["$acts"] = "acts"
+                    then = s0["inner"][1]; els = s0["inner"][2] if len(s0["inner"]) > 2 else None
+                    a = self.stmts(self.flatten(then) + rest, dict(env2), ret, depth + 1)
+                    b = self.stmts(self.flatten(els) + rest, dict(env2), ret, depth + 1)
+                    return "let acts : List Act := %s ++ [.write %s]\n%sif (i.writeFails %s = true) then\n%s  %s\n%selse\n%s  %s" % (
+                        acts, nexpr, ind, nexpr, ind, a, ind, ind, b)
+            parts = s0["inner"]
+            then = parts[1]; els = parts[2] if len(parts) > 2 else None
+            a = self.stmts(self.flatten(then) + rest, dict(env), ret, depth + 1)
+            b = self.stmts(self.flatten(els) + rest, dict(env), ret, depth + 1)
+            return "if %s then\n%s  %s\n%selse\n%s  %s" % (self.prop(parts[0], env), ind, a, ind, ind, b)
+        if k == "ReturnStmt":
+            return ret(env)
+        if k == "CompoundAssignOperator" and s0["opcode"] in ("-=", "+="):
+            lhs = strip(s0["inner"][0])
+            if lhs.get("kind") == "DeclRefExpr":
+                nm = lhs["referencedDecl"]["name"]
+                cur = env.get(nm, ident(nm))
+                val = "(%s %s %s)" % (cur, s0["opcode"][0], self.expr(s0["inner"][1], env))
+                env2 = dict(env); env2[nm] = ident(nm)
+                return "let %s : Int := %s\n%s%s" % (ident(nm), val, ind, self.stmts(rest, env2, ret, depth))
+        return Fn.stmts(self, ss, env, ret, depth)
+
+
 def body_of(decl):
     for c in decl.get("inner", []):
         if c.get("kind") == "CompoundStmt":
@@ -544,6 +650,26 @@ def main():
         files["Tables.lean"] = "\n".join(tab)
     except Exception as e:
         failed.append("socket.cpp/parser.cpp (%s)" % str(e)[:300])
+
+    # ------------------------------------------------------------------ qiodevicecopier.cpp: nextBlock
+    try:
+        docs = clang_ast(repo, "qiodevicecopier.cpp", "QIODeviceCopierPrivate::nextBlock", exp)
+        out = [HEADER % "src/src/qiodevicecopier.cpp", "namespace QhttpGen.Copier\n",
+               "/-- what one call of `nextBlock()` does, in order -/\ninductive Act\n  | write (n : Int)      -- dest->write(data, n)\n  | error | finished | requeue\nderiving DecidableEq, Repr\n",
+               "/-- the private members read and what the two devices answer during this call -/\nstructure In where\n  stopped : Bool\n  bufferSize : Int\n  rangeTo : Int\n  readResult : Int            -- src->read(data, bufferSize)\n  pos : Int                   -- src->pos() after the read\n  atEnd : Bool                -- src->atEnd() after the read\n  writeFails : Int → Bool     -- dest->write(data, n) == -1\n"]
+        for d in docs:
+            if d.get("kind") == "CXXMethodDecl" and body_of(d) is not None:
+                f = NbFn()
+                try:
+                    body = f.stmts(f.flatten(body_of(d)), {}, lambda env: env.get("$acts", "([] : List Act)"))
+                    out.append("/-- `QIODeviceCopierPrivate::nextBlock()` -/\ndef nextBlock (i : In) : List Act :=\n    %s\n" % body)
+                    done.append("QIODeviceCopierPrivate::nextBlock")
+                except Untranslatable as e:
+                    failed.append("QIODeviceCopierPrivate::nextBlock (%s)" % e)
+        out.append("end QhttpGen.Copier\n")
+        files["Copier.lean"] = "\n".join(out)
+    except Exception as e:
+        failed.append("qiodevicecopier.cpp (%s)" % str(e)[:300])
 
     sha = hashlib.sha256()
     for name, content in sorted(files.items()):
